@@ -249,7 +249,12 @@ def rule_array_elements(run):
     run.end()
 
 
-RULES = [rule_cache, rule_own_cache, rule_lattice, rule_value_views, rule_views, rule_array_elements]
+def rule_alias(run):
+    from . import c03
+    c03.rule_alias(run)   # views of a locally constructed signal are redirected to the alias as well (keyed by root)
+
+
+RULES = [rule_cache, rule_own_cache, rule_lattice, rule_value_views, rule_views, rule_array_elements, rule_alias]
 LEVEL = "other"
 EXPLANATION = (
     "Canonicity and the subtype lattice are decided from the three metaclass __getitem__ functions for all parameters "
